@@ -42,7 +42,8 @@ RULE = ("facet sets of 1-7 names from an adversarial pool (a, ab, abc, b, bc, c,
         "docids 0..11 plus extreme ids with path lists matching none/some/nested/duplicated facets, empty "
         "lists and withdrawn values; counts(docids, omit_facets) with known, unknown, facet-less, withdrawn and "
         "repeated ids (lists and query results) and omit lists of facets, descendants and unrelated names; "
-        "Eq/NotEq/Any/NotAny/All/NotAll through index.applyX and query objects, the inherited apply() itself "
+        "Eq/NotEq/Any/NotAny/All/NotAll through index.applyX and query objects (the any/all argument as list, tuple, "
+        "set, frozenset, dict keys view, generator, iterator or map - hash of the command), the inherited apply() itself "
         "(list, tuple, {'query': ..} with operator and/or/absent, bare string), counts() over the index's own "
         "docids()/indexed()/not_indexed(), the enumeration tuple (sometimes twice in a row), identical content "
         "again, unindex twice; segments also upper case, digit, blank, dotted and 40 characters long; both "
